@@ -138,7 +138,7 @@ static void runHistory(const Job& j) {
 	if (j.flag("validate")) validate(a);
 	std::vector<std::string> evs; int snapAt = -1;
 	for (auto& s : j.script) { if (s.first == "EV") evs.push_back(s.second); else if (s.first == "SNAP") snapAt = atoi(s.second.c_str()); }
-	size_t ev = 0; int guard = 0; int stable = 0;
+	size_t ev = 0; int guard = 0; int stable = 0; bool cancelledAtEnd = false;
 	InterpreterState st = USCXML_UNDEF;
 	Session b; size_t evB = 0; bool resumed = false; std::string lateSer;
 	size_t pend = j.flag("pending1") ? 1 : j.flag("pending2") ? 2 : 0;  // events queued ahead (so snapshots see a non-empty external queue)
@@ -148,7 +148,11 @@ static void runHistory(const Job& j) {
 		if (st == USCXML_MACROSTEPPED || st == USCXML_IDLE) {
 			if (st == USCXML_IDLE) {
 				// queue is empty and the configuration stable: feed the next event (plus `pend` more, queued ahead)
-				if (ev >= evs.size()) break;
+				if (ev >= evs.size()) {
+					// 'cancelend': the session is cancelled once the history is through, every state still active has to run its exit handlers
+					if (j.flag("cancelend") && !cancelledAtEnd) { cancelledAtEnd = true; a.ip.cancel(); continue; }
+					break;
+				}
 				for (size_t k = 0; k < 1 + pend && ev < evs.size(); k++) { Event e(evs[ev++], Event::EXTERNAL); a.ip.receive(e); }
 			}
 			stable++;
